@@ -116,12 +116,27 @@ func check(c Case, o *pbt.Obs) *pbt.Failure {
 	if f := applyRange(r3, l, c2, n, want); f != nil {
 		return f
 	}
+	// R5: the source of the first snapshot goes on applying entries and snapshots again at c2 (a long-running replica
+	// snapshots its partition again and again); that second snapshot is restored into a fresh replica, which applies the rest
+	if f := applyRange(src, l, c1, c2, want); f != nil {
+		return f
+	}
+	r5 := fresh("R5(restored@c2 from a replica that had snapshotted at c1)")
+	if f := snapshotInto(src, r5); f != nil {
+		return f
+	}
+	if f := applyRange(r5, l, c2, n, want); f != nil {
+		return f
+	}
+	if c2 > c1 {
+		o.Label("second-snapshot-by-the-same-replica-restored")
+	}
 	// R4: replay from scratch a second time
 	r4 := fresh("R4(replay)")
 	if f := applyRange(r4, l, 0, n, want); f != nil {
 		return f
 	}
-	for _, r := range []*replica{r1, r2, r3, r4} {
+	for _, r := range []*replica{r1, r2, r3, r4, r5} {
 		if d := psm.Contents(r.sm, m); d != "" {
 			return pbt.Failf("C04:contents-differ", "replica %s after the whole log: %s", r.name, d)
 		}
@@ -153,7 +168,7 @@ func TestReplicasAgree(t *testing.T) {
 		Weights: [6]int{6, 4, 4, 3, 2, 2}})
 	pbt.Run(t, pbt.Prop[Case]{
 		ID: "C04", Name: "TestReplicasAgree",
-		Rule: "rapid-generated log of serialized PartitionChange entries (all six kinds, small id pool, batches with duplicates; in about 1 of 1000 logs an item with 40000 metadata keys that is later updated with 30000 other keys - each map is valid, their union exceeds the format's 65535 entries) and cut points c1<=c2; replicas: R1 applies all; R2 applies [0,c1), snapshots (real partition.snapshot), the bytes are restored (real processSnapshot) into a fresh or a used state machine, then applies the rest; R3 restores a snapshot taken from the restored R2 at c2; R4 replays from scratch; oracle: every per-entry outcome on every replica equals the sequential model's, apply/restore never error or panic, final contents (ids, vector bits, metadata, Len) of all replicas equal the model; non-trivial = a remove/update precedes the first cut and entries follow it; distinct = distinct case JSON",
+		Rule: "rapid-generated log of serialized PartitionChange entries (all six kinds, small id pool, batches with duplicates; in about 1 of 1000 logs an item with 40000 metadata keys that is later updated with 30000 other keys - each map is valid, their union exceeds the format's 65535 entries) and cut points c1<=c2; replicas: R1 applies all; R2 applies [0,c1), snapshots (real partition.snapshot), the bytes are restored (real processSnapshot) into a fresh or a used state machine, then applies the rest; R3 restores a snapshot taken from the restored R2 at c2; R5 restores the second snapshot of the replica that had already snapshotted at c1 and went on applying [c1,c2); R4 replays from scratch; one batch in twelve has 16-40 items (ids repeat far apart); oracle: every per-entry outcome on every replica equals the sequential model's, apply/restore never error or panic, final contents (ids, vector bits, metadata, Len) of all replicas equal the model; non-trivial = a remove/update precedes the first cut and entries follow it; distinct = distinct case JSON",
 		Gen: func(t *rapid.T) Case {
 			return Case{Log: g.Draw(t, "log"), C1: rapid.IntRange(0, 100).Draw(t, "c1"), C2: rapid.IntRange(0, 100).Draw(t, "c2"), Used: rapid.IntRange(0, 100).Draw(t, "used") * rapid.IntRange(0, 1).Draw(t, "useUsed")}
 		},
